@@ -57,6 +57,10 @@ FAULTS = [
     ("bad-digits-after-two-tildes", ".word ~ ~ 19", "19", "invalid-number"),
     ("undefined-after-two-signs", "mov #- -UNDEF2, r0", "UNDEF2", "undefined-symbol"),
     ("too-large-after-hash", "mov # -400000, r0", "-400000", "value-out-of-bounds"),
+    # directives that emit nothing, with an operand that is unknown where they stand (they still have to be evaluated)
+    ("undefined-in-nlist", ".nlist UNDEF5", "UNDEF5", "undefined-symbol"),
+    ("undefined-in-list", ".list UNDEF6", "UNDEF6", "undefined-symbol"),
+    ("undefined-in-output-name", "make_raw \"rel\" <NOVER + 60> \".raw\"", "NOVER", "undefined-symbol"),
     # the culprit is the whole displacement of an index operand, written as an unbracketed infix expression
     ("index-sum-too-large", "mov 177777+177777+5(r2), r0", "177777+177777+5", "value-out-of-bounds"),
     ("index-deferred-sum-too-large", "mov @177777+177777+5(r1), r0", "177777+177777+5", "value-out-of-bounds"),
